@@ -549,6 +549,7 @@ class Transport(threading.Thread, ClosingContextManager):
 
         self.saved_exception = None
         self.clear_to_send = threading.Event()
+        self._held_user_messages = []
         self.clear_to_send_lock = threading.Lock()
         self.clear_to_send_timeout = 30.0
         self.log_name = "paramiko.transport"
@@ -1972,8 +1973,12 @@ class Transport(threading.Thread, ClosingContextManager):
         for user-initiated requests.
         """
         start = time.time()
+        # a handler (or the keepalive) running on the transport thread itself
+        # must not wait for a key exchange that only this thread can complete
+        on_transport_thread = threading.current_thread() is self
         while True:
-            self.clear_to_send.wait(0.1)
+            if not on_transport_thread:
+                self.clear_to_send.wait(0.1)
             if not self.active:
                 self._log(
                     DEBUG, "Dropping user packet because connection is dead."
@@ -1982,6 +1987,11 @@ class Transport(threading.Thread, ClosingContextManager):
             self.clear_to_send_lock.acquire()
             if self.clear_to_send.is_set():
                 break
+            if on_transport_thread:
+                # held back until the new keys are in place (_parse_newkeys)
+                self._held_user_messages.append(data)
+                self.clear_to_send_lock.release()
+                return
             self.clear_to_send_lock.release()
             if time.time() > start + self.clear_to_send_timeout:
                 raise SSHException(
@@ -2950,6 +2960,10 @@ class Transport(threading.Thread, ClosingContextManager):
             self.in_kex = False
         self.clear_to_send_lock.acquire()
         try:
+            # replies this thread could not send during the exchange go first
+            pending, self._held_user_messages = self._held_user_messages, []
+            for data in pending:
+                self._send_message(data)
             self.clear_to_send.set()
         finally:
             self.clear_to_send_lock.release()
